@@ -106,7 +106,9 @@ class Translator:
             parts = []
             left = e.left
             for op, right in zip(e.ops, e.comparators):
-                if isinstance(op, ast.NotEq):
+                if isinstance(op, ast.In) and isinstance(right, ast.Tuple):
+                    parts.append('(' + ' || '.join(f'({self.z(left)} =? {self.z(x)})' for x in right.elts) + ')')
+                elif isinstance(op, ast.NotEq):
                     parts.append(f'(negb ({self.z(left)} =? {self.z(right)}))')
                 elif type(op) in CMPOPS:
                     parts.append(f'({self.z(left)} {CMPOPS[type(op)]} {self.z(right)})')
